@@ -245,17 +245,17 @@ Theorem C11_alias_agnostic : forall d x y x' y' tx ty,
   exists r r', D_prodMatMat d x y tx ty = Ok r /\ D_prodMatMat d x' y' tx ty = Ok r' /\ meq (nr d) (nc d) (absd r) (absd r').
 Proof. exact alias_agnostic_dense. Qed.
 Print Assumptions C11_alias_agnostic.
-(* the receiver itself as an operand (AMatrix::prodMatInPlace = prodMatMatInPlace(this, y, false, ty)): on the pinned tree the
-   dense override assigns through noalias() and the generic loop reads entries it has already overwritten *)
-Theorem C11_no_ub_prodMatInPlace_refuted : exists d y ty c,
-  wfd d /\ wfd y /\ nc d = dimr ty y /\ dimc ty y = nc d /\ D_prodMatInPlace d y ty = UB c.
-Proof. exact prodMatInPlace_dense_refuted. Qed.
-Print Assumptions C11_no_ub_prodMatInPlace_refuted.
-Theorem C11_prodMatInPlace_generic_refuted : exists d y r,
-  wfd d /\ wfd y /\ nr y = nc d /\ nc y = nc d /\ G_prodMatMat_alias false d d y false false true false = Ok r /\
-  ~ meq (nr d) (nc d) (absd r) (mmul (nc d) (absd d) (absd y)).
-Proof. exact prodMatInPlace_generic_refuted. Qed.
-Print Assumptions C11_prodMatInPlace_generic_refuted.
+(* the receiver itself as an operand (AMatrix::prodMatInPlace = prodMatMatInPlace(this, y, false, ty)): this := this . op(y) *)
+Theorem C11_no_ub_prodMatInPlace : forall d y ty, nc d = dimr ty y -> dimc ty y = nc d ->
+  exists r, D_prodMatInPlace d y ty = Ok r /\ nr r = nr d /\ nc r = nc d /\ wfd r /\
+    meq (nr d) (nc d) (absd r) (mmul (nc d) (absd d) (opT ty (absd y))).
+Proof. exact prodMatInPlace_dense. Qed.
+Print Assumptions C11_no_ub_prodMatInPlace.
+Theorem C11_prodMatInPlace_generic : forall d y ty, wfd d -> nc d = dimr ty y -> dimc ty y = nc d ->
+  exists r, G_prodMatMat_alias false d d y false ty true false = Ok r /\ nr r = nr d /\ nc r = nc d /\
+    meq (nr d) (nc d) (absd r) (mmul (nc d) (absd d) (opT ty (absd y))).
+Proof. exact prodMatInPlace_generic. Qed.
+Print Assumptions C11_prodMatInPlace_generic.
 
 (* ================================================================== csparse kernels *)
 (* cs_triplet: the compressed-column matrix holds the accumulated triplets (duplicates add up), for every triplet list *)
